@@ -253,8 +253,8 @@ theorem issued_key_always_refreshable (w : World) (hw : Reachable w) (p : AP) (r
   have hi : Issued (w.step (.keygen p)).msk usk := by
     rw [hstep]; exact keygen_issues w.msk rights w.rng usk hk
   have hreach : Reachable (ops.foldl World.step (w.step (.keygen p))) := by
-    obtain ⟨n, ops0, rfl⟩ := hw
-    exact ⟨n, ops0 ++ [.keygen p] ++ ops, by simp [List.foldl_append]⟩
+    obtain ⟨n, k0, ops0, rfl⟩ := hw
+    exact ⟨n, k0, ops0 ++ [.keygen p] ++ ops, by simp [List.foldl_append]⟩
   exact issued_refresh_ok _ hreach usk (issued_stable _ ops usk hi) keep
 
 end CC.Props.C09
